@@ -25,6 +25,7 @@ pub struct RunCtx {
     pub lsets: Mutex<HashMap<i64, LocalSpans>>,
     pub traces: Mutex<HashMap<i64, u128>>,
     pub ctxs: Mutex<HashMap<i64, Option<SpanContext>>>,
+    pub futs: Mutex<HashMap<i64, crate::adapters::Adapter>>,
 }
 
 impl RunCtx {
@@ -35,6 +36,7 @@ impl RunCtx {
             lsets: Mutex::new(HashMap::new()),
             traces: Mutex::new(HashMap::new()),
             ctxs: Mutex::new(HashMap::new()),
+            futs: Mutex::new(HashMap::new()),
         }
     }
 
@@ -109,7 +111,21 @@ fn quiet_local_ctx() -> Option<SpanContext> {
 
 pub struct Actor {
     pub t: usize,
-    pub held: Vec<(i64, Held)>,
+}
+
+thread_local! {
+    /// what the caller on this thread holds (guards, collectors, local spans), innermost last
+    pub static HELD: std::cell::RefCell<Vec<(i64, Held)>> = const { std::cell::RefCell::new(Vec::new()) };
+}
+
+pub fn held_push(n: i64, h: Held) {
+    HELD.with(|v| v.borrow_mut().push((n, h)));
+}
+pub fn held_pop() -> Option<(i64, Held)> {
+    HELD.with(|v| v.borrow_mut().pop())
+}
+pub fn held_top_name() -> Option<i64> {
+    HELD.with(|v| v.borrow().last().map(|x| x.0))
 }
 
 fn kvs_of(rc: &RunCtx, v: &Value) -> Vec<(String, String)> {
@@ -169,6 +185,16 @@ pub fn exec(actor: &mut Actor, rc: &RunCtx, step: &Value) {
             call.insert("src".into(), json!(sname(src)));
         }
         call.insert("w3c".into(), json!(step["w3c"].as_bool().unwrap_or(false)));
+    }
+    for k in ["f"] {
+        if !step[k].is_null() {
+            call.insert(k.into(), json!(sname(geti(k))));
+        }
+    }
+    for k in ["kind", "inner", "fin"] {
+        if !step[k].is_null() {
+            call.insert(k.into(), step[k].clone());
+        }
     }
     if !step["re"].is_null() {
         call.insert("re".into(), step["re"].clone());
@@ -342,7 +368,7 @@ fn do_op(
         }
         "setlp" => {
             let g = get_span(rc, geti("h")).map(|s| s.set_local_parent());
-            actor.held.push((geti("g"), Held::Guard(g)));
+            held_push(geti("g"), Held::Guard(g));
         }
         "dropg" | "lcdrop" | "lexit" => {
             let want = geti(match op {
@@ -350,29 +376,32 @@ fn do_op(
                 "lcdrop" => "c",
                 _ => "l",
             });
-            match actor.held.last() {
-                Some((n, _)) if *n == want => {
-                    let (_, h) = actor.held.pop().unwrap();
-                    drop(h);
-                }
-                _ => {
-                    out.insert("harness".into(), json!("ill-nested"));
-                }
+            if held_top_name() == Some(want) {
+                let h = held_pop();
+                drop(h);
+            } else {
+                out.insert("harness".into(), json!("ill-nested"));
             }
         }
         "lcstart" => {
-            actor.held.push((geti("c"), Held::Coll(LocalCollector::start())));
+            held_push(geti("c"), Held::Coll(LocalCollector::start()));
         }
-        "lccollect" => match actor.held.last() {
-            Some((n, Held::Coll(_))) if *n == geti("c") => {
-                if let Some((_, Held::Coll(c))) = actor.held.pop() {
-                    rc.lsets.lock().unwrap().insert(geti("ls"), c.collect());
+        "lccollect" => {
+            if held_top_name() == Some(geti("c")) {
+                match held_pop() {
+                    Some((_, Held::Coll(c))) => {
+                        rc.lsets.lock().unwrap().insert(geti("ls"), c.collect());
+                    }
+                    Some(other) => {
+                        HELD.with(|v| v.borrow_mut().push(other));
+                        out.insert("harness".into(), json!("ill-nested"));
+                    }
+                    None => {}
                 }
-            }
-            _ => {
+            } else {
                 out.insert("harness".into(), json!("ill-nested"));
             }
-        },
+        }
         "lenter" => {
             let before = quiet_local_ctx().map(|c| c.span_id);
             let span = LocalSpan::enter_with_local_parent(sname(geti("l")));
@@ -380,7 +409,7 @@ fn do_op(
             if after.is_some() && after != before {
                 out.insert("id".into(), json!(hex16(after.unwrap().0)));
             }
-            actor.held.push((geti("l"), Held::Local(span)));
+            held_push(geti("l"), Held::Local(span));
         }
         "levent" => {
             if let Some((n, p)) = evt {
@@ -403,7 +432,7 @@ fn do_op(
             });
             out.insert("cc".into(), json!(cc.get()));
         }
-        "lwith" => match actor.held.pop() {
+        "lwith" => match held_pop() {
             Some((n, Held::Local(span))) => {
                 let cc = Cell::new(0u32);
                 let k = own(kvs);
@@ -416,10 +445,10 @@ fn do_op(
                     k
                 });
                 out.insert("cc".into(), json!(cc.get()));
-                actor.held.push((n, Held::Local(span)));
+                held_push(n, Held::Local(span));
             }
             Some(other) => {
-                actor.held.push(other);
+                HELD.with(|v| v.borrow_mut().push(other));
                 out.insert("harness".into(), json!("ill-nested"));
             }
             None => {
@@ -488,6 +517,31 @@ fn do_op(
         }
         "flush" => {
             fastrace::flush();
+        }
+        "fnew" => {
+            let kind = step["kind"].as_str().unwrap_or("fut");
+            let span = if kind == "eop" { None } else { take_span(rc, geti("h")) };
+            let ad = crate::adapters::Adapter::new(kind, span, actor.t);
+            rc.futs.lock().unwrap().insert(geti("f"), ad);
+        }
+        "fpoll" => {
+            let ad = rc.futs.lock().unwrap().remove(&geti("f"));
+            if let Some(mut ad) = ad {
+                let ready = ad.poll(
+                    rc,
+                    actor.t,
+                    geti("f"),
+                    geti("g"),
+                    step["inner"].as_str().unwrap_or("none"),
+                    step["fin"].as_bool().unwrap_or(false),
+                );
+                out.insert("ready".into(), json!(ready));
+                rc.futs.lock().unwrap().insert(geti("f"), ad);
+            }
+        }
+        "fdrop" => {
+            let ad = rc.futs.lock().unwrap().remove(&geti("f"));
+            drop(ad);
         }
         "exit" => {}
         _ => {
